@@ -561,6 +561,11 @@ func (env *Env) call(n *ast.CallExpr) *Val {
 			v := env.eval(n.Args[0])
 			t := env.evalType(n.Args[1])
 			e.typeFuncs()
+			if _, isIface := t.Underlying().(*types.Interface); isIface {
+				// typeis(x, I): x's dynamic type implements interface I
+				return &Val{T: and(not(eq(v.T, "0")), sx(e.implementsPred(t), sx("typeof", v.T))), Ty: tBool}
+			}
+			e.noteBoxedType(t)
 			return &Val{T: and(not(eq(v.T, "0")), eq(sx("typeof", v.T), fmt.Sprint(e.typeID(t)))), Ty: tBool}
 		case "unbox":
 			v := env.eval(n.Args[0])
@@ -692,6 +697,14 @@ func (env *Env) call(n *ast.CallExpr) *Val {
 		case "allocated":
 			v := env.eval(n.Args[0])
 			return &Val{T: sx("select", e.allocGet(env.st), v.T), Ty: tBool}
+		case "errsite":
+			// errsite(x): x is an error built by an error constructor in the
+			// verified code (errors.Errorf, util error .Errorf/.Wrap ...), as
+			// opposed to nil or a value that came from elsewhere
+			e.declOnce("fun:isErrSite", "(declare-fun isErrSite (Int) Bool)")
+			e.declOnce("ax:isErrSite0", "(assert (not (isErrSite 0)))")
+			v := env.eval(n.Args[0])
+			return &Val{T: sx("isErrSite", v.T), Ty: tBool}
 		case "locked":
 			// locked(x.mu): the verified code holds that mutex (lock.go)
 			return &Val{T: e.isHeld(env.st, env.addrOfExpr(n.Args[0])), Ty: tBool}
@@ -701,7 +714,20 @@ func (env *Env) call(n *ast.CallExpr) *Val {
 			e.declOnce("ax:errIs", "(assert (forall ((a Int) (b Int)) (! (and (=> (= a 0) (not (errIs a b))) (=> (and (not (= a 0)) (= a b)) (errIs a b))) :pattern ((errIs a b)))))")
 			a := env.eval(n.Args[0])
 			b := env.eval(n.Args[1])
-			return &Val{T: sx("errIs", a.T, b.T), Ty: tBool}
+			// a concrete error (pointer) is compared as the error value it boxes to
+			boxed := func(v *Val) string {
+				if _, isPtr := v.Ty.Underlying().(*types.Pointer); isPtr {
+					box, _, _ := e.boxFuncs(v.Ty)
+					return sx(box, v.T)
+				}
+				return v.T
+			}
+			return &Val{T: sx("errIs", boxed(a), boxed(b)), Ty: tBool}
+		case "plainerr":
+			// plainerr(x): x was built by a constructor that wraps no other error
+			e.declOnce("fun:isPlainErr", "(declare-fun isPlainErr (Int) Bool)")
+			v := env.eval(n.Args[0])
+			return &Val{T: sx("isPlainErr", v.T), Ty: tBool}
 		case "ghost":
 			// ghost(name): current value of an integer ghost variable
 			nm := n.Args[0].(*ast.Ident).Name
